@@ -333,3 +333,88 @@ fn k_failed_min() {
     std::mem::forget(out);
     std::mem::forget(checks);
 }
+
+// ---------------------------------------------------------------------------------------------
+// U-failed-leaf (C08): report_all_failed_clauses_for_rules on ONE failed value-check record whose `from` is the
+// value of a literal variable (`let x = 5` ... `%x is_string`): unary_operation / binary_operation record the
+// QueryResult as it comes from the query, and a bare variable bound to a literal yields QueryResult::Literal.
+// Obligation: no panic (the reporters call this function for every FAIL run).
+// ---------------------------------------------------------------------------------------------
+fn lit_of(n: i64) -> QueryResult {
+    QueryResult::Literal(Rc::new(PathAwareValue::Int((Path::root(), n))))
+}
+fn res_of(n: i64) -> QueryResult {
+    QueryResult::Resolved(Rc::new(PathAwareValue::Int((Path::root(), n))))
+}
+
+fn failed_unary_leaf(from: QueryResult, op: CmpOperator) {
+    let not: bool = kani::any();
+    let mut checks: Vec<EventRecord<'static>> = Vec::with_capacity(1);
+    checks.push(leaf_rec(
+        RecordType::ClauseValueCheck(ClauseCheck::Unary(UnaryValueCheck {
+            comparison: (op, not),
+            value: ValueCheck { from, message: None, custom_message: None, status: Status::FAIL },
+        })),
+        Vec::new(),
+    ));
+    let out = report_all_failed_clauses_for_rules(&checks);
+    kani::assert(out.len() == 1, "the failed check is listed");
+    std::mem::forget(out);
+    std::mem::forget(checks);
+}
+
+#[cfg_attr(kani, kani::proof)]
+#[cfg_attr(kani, kani::unwind(3))]
+#[cfg_attr(kani, kani::stub(alloc::fmt::format, fmt_stub))]
+#[cfg_attr(verif_replay, test)]
+fn k_failed_unary_literal() {
+    lib_only!();
+    failed_unary_leaf(lit_of(kani::any()), CmpOperator::IsString);
+}
+
+#[cfg_attr(kani, kani::proof)]
+#[cfg_attr(kani, kani::unwind(3))]
+#[cfg_attr(kani, kani::stub(alloc::fmt::format, fmt_stub))]
+#[cfg_attr(verif_replay, test)]
+fn k_failed_unary_resolved() {
+    lib_only!();
+    failed_unary_leaf(res_of(kani::any()), CmpOperator::IsString);
+}
+
+fn failed_cmp_leaf(from: QueryResult, to: QueryResult) {
+    let not: bool = kani::any();
+    let mut checks: Vec<EventRecord<'static>> = Vec::with_capacity(1);
+    checks.push(leaf_rec(
+        RecordType::ClauseValueCheck(ClauseCheck::Comparison(ComparisonClauseCheck {
+            comparison: (CmpOperator::Eq, not),
+            from,
+            to: Some(to),
+            message: None,
+            custom_message: None,
+            status: Status::FAIL,
+        })),
+        Vec::new(),
+    ));
+    let out = report_all_failed_clauses_for_rules(&checks);
+    kani::assert(out.len() == 1, "the failed check is listed");
+    std::mem::forget(out);
+    std::mem::forget(checks);
+}
+
+#[cfg_attr(kani, kani::proof)]
+#[cfg_attr(kani, kani::unwind(3))]
+#[cfg_attr(kani, kani::stub(alloc::fmt::format, fmt_stub))]
+#[cfg_attr(verif_replay, test)]
+fn k_failed_cmp_from_literal() {
+    lib_only!();
+    failed_cmp_leaf(lit_of(kani::any()), res_of(kani::any()));
+}
+
+#[cfg_attr(kani, kani::proof)]
+#[cfg_attr(kani, kani::unwind(3))]
+#[cfg_attr(kani, kani::stub(alloc::fmt::format, fmt_stub))]
+#[cfg_attr(verif_replay, test)]
+fn k_failed_cmp_resolved() {
+    lib_only!();
+    failed_cmp_leaf(res_of(kani::any()), res_of(kani::any()));
+}
